@@ -355,11 +355,20 @@ func runC18(e *Env) {
 			// (the explicit Form binder documents that it reads the merged request form, so it is left alone)
 			req.URL.RawQuery = "unrelated=1"
 		}
+		auditFirst := (format == "form" || format == "multipart") && (via == "Auto" || via == "Context.Bind") && chance(r, 1, 2) // (automatic binding reads the body form, which FormParams must leave alone; the explicit Form binder reads the merged view FormParams works on)
+		if auditFirst {
+			t.Count("roundtrip.after_FormParams_with_excepts", 1)
+		}
 		var got bindA
 		var err error
 		pv, panicked := catch(func() {
 			c := &rux.Context{}
 			c.Init(NewRec(), req)
+			if auditFirst {
+				// an audit middleware logged the submitted form without the sensitive fields: FormParams(excepts)
+				// leaves them out of the copy it RETURNS - the request keeps what the client sent
+				_, _ = c.FormParams([]string{"name", "tags", "ok"})
+			}
 			switch via {
 			case "Auto":
 				err = binding.Auto(req, &got)
